@@ -21,12 +21,15 @@ RULE = ("seeded histories over pools of user arrays (own memory / F / strided vi
         "op refers (nor to its owner) has its original writeable flag (owner's original for views taken while locked; natively read-only stays "
         "read-only); at full quiescence every array ever seen is back to its original flag. Thorough adds GC injection: gc.collect() fired from "
         "sys.monitoring PY_START/PY_RETURN events inside tensor_base.py / lock_management.py frames. Non-trivial: >=3 guarded ops and >=1 "
-        "release; distinct = hash of the (lock|unlock) event-role sequence = interleavings seen.")
+        "release; distinct = hash of the (lock|unlock) event-role sequence = interleavings seen. Histories also contain the orphan pattern (a consumed tensor whose graph is cleared and which is then updated in "
+        "place while its consumer lives: the array the consumer was recorded with then belongs to a placeholder only). At quiescence the "
+        "lock tables are inspected; if they still know ids of arrays that are gone, fresh user arrays are allocated until one REUSES such "
+        "an id, given a native flag (read-only / writeable), run through a guarded operation and dropped: the flag must be back (id-reuse probe).")
 ASSUMPTIONS = ["between 'upstream partly cleared' and 'operation dead' the flag is unspecified and not judged",
                "internal table residue (_array_tracker) is not judged, only flags"]
 TIERS = {"quick": {"cases": 2500, "nst": (4, 14), "gcinject": 0.03}, "thorough": {"cases": 16000, "nst": (6, 30), "gcinject": 0.04}}
-FLOORS = {"quick": {"I1_evals": 20000, "I2_evals": 40000, "quiescent_arrays": 8000},
-          "thorough": {"I1_evals": 100000, "I2_evals": 200000, "quiescent_arrays": 40000}}
+FLOORS = {"quick": {"I1_evals": 20000, "I2_evals": 40000, "quiescent_arrays": 8000, "reuse_probes": 40},
+          "thorough": {"I1_evals": 100000, "I2_evals": 200000, "quiescent_arrays": 40000, "reuse_probes": 200}}
 
 UN = ["exp", "sin", "tanh", "negative", "square"]
 BI = ["add", "multiply", "subtract", "maximum"]
@@ -140,6 +143,22 @@ def gen_case(rng, cfg, idx):
                 st.append(["cycle", x])
             st.append(["del", x])
             (results if x in results else tens).remove(x)
+        elif r < 0.975 and results:
+            # a consumed tensor whose graph is cleared and which is then updated in place while its consumer is still alive: the array the
+            # consumer was recorded with now belongs to an internal placeholder only and can die before the consumer releases it
+            x = rng.choice(results)
+            out = new("r")
+            st.append(["op", out, rng.choice(UN), [x], None, None])
+            shapes[out] = shapes[x]
+            results.append(out)
+            st.append([rng.choice(["clear", "backward"]), x])
+            st.append(["inplace", x, rng.choice(["imul", "iadd", "setitem", "outtensor"]), rng.choice([x, None])])
+            if rng.random() < 0.5:
+                out2 = new("r")
+                st.append(["op", out2, rng.choice(UN), [out], None, None])
+                shapes[out2] = shapes[out]
+                results.append(out2)
+                st.append([rng.choice(["clear", "backward"]), out2])
         else:
             st.append(["gc"])
     # drop order: random permutation of everything that is left
@@ -476,6 +495,36 @@ def run_case(case):
             from mygrad._utils import lock_management as _lm
             left_c = {k: v for k, v in _lm._array_counter.items() if v}
             left_t = {k: (r() is not None) for k, r in _lm._array_tracker.items()}
+            stale_ids = {k for k in left_c if not left_t.get(k, False)} | {k for k, alive in left_t.items() if not alive}
+            if stale_ids:
+                # id-reuse probe: let fresh user arrays (natively read-only / writeable) land on an id that the lock tables still know,
+                # run each through a guarded operation and drop the graph: the original flag must be back
+                import mygrad as _mg
+                hit, keep = [], []
+                for _k in range(3000):
+                    b_ = np.array([1.0, 2.0, 3.0][: 1 + _k % 3])
+                    if id(b_) in stale_ids:
+                        hit.append(b_)
+                        if len(hit) >= 2:
+                            break
+                    else:
+                        keep.append(b_)
+                del keep
+                for j, b_ in enumerate(hit):
+                    orig = bool(j % 2)
+                    b_.flags.writeable = orig
+                    mon.cnt["reuse_probes"] = mon.cnt.get("reuse_probes", 0) + 1
+                    y_ = _mg.Tensor(b_, copy=False, constant=True) * 2.0
+                    locked = b_.flags.writeable
+                    del y_
+                    gc.collect()
+                    if locked or bool(b_.flags.writeable) != orig:
+                        mon.viol.append({"monitor": "M-locks", "mech": "id-reuse:" + ("writeable-in-live-graph" if locked else
+                                                                                      ("not-restored" if orig else "readonly-became-writeable")),
+                                         "msg": f"a fresh user array that reuses the id of an array freed while still counted in the lock tables "
+                                                f"(original writeable={orig}) is writeable={b_.flags.writeable} after its graph is gone (in graph: {locked})"})
+                        break
+                del hit
             if left_c or left_t or _lm._views_waiting_for_unlock:
                 mon.cnt["locktable_leftovers"] = 1
                 mon.cnt["locktable_left_counter"] = len(left_c)
